@@ -44,7 +44,7 @@ func runCancels(c *Ctx, sh *shared, dir string) {
 		return
 	}
 	defer func() { a.Stop(); a.KillStrays() }()
-	if !waitPing(a.Sock, b.ID, 30*time.Second) {
+	if !waitPing(a.Sock, b.ID, 90*time.Second) {
 		fail("node A never reaches node B", "harness-mesh")
 		return
 	}
@@ -165,7 +165,7 @@ func runCancels(c *Ctx, sh *shared, dir string) {
 		// `work results` of the cancelled unit on the submitting node: exactly the rest, and it ends
 		want := r.remote
 		for _, p := range []int{0, len(want) / 2, len(want)} {
-			got, ended, err := WorkResults(a.Sock, r.unitA, int64(p), 6*time.Second)
+			got, ended, err := WorkResults(a.Sock, r.unitA, int64(p), 20*time.Second)
 			sh.mu.Lock()
 			sh.im.Count(fmt.Sprintf("cancels/unit%d/results/%d", i, p), true)
 			switch {
